@@ -47,7 +47,7 @@ def number(tok):
     return int(tok)
 
 
-def evaluate(s, ctx, consts, sizeof):
+def evaluate(s, ctx, consts, sizeof, apply_op=None, neg=None, inv=None):
     toks = tokenize(s)
     pos = [0]
 
@@ -69,9 +69,11 @@ def evaluate(s, ctx, consts, sizeof):
                 raise Malformed("expected )")
             return v
         if t == "-":
-            return -primary()
+            v = primary()
+            return neg(v) if neg else -v
         if t == "~":
-            return ~primary()
+            v = primary()
+            return inv(v) if inv else ~v
         if t == "sizeof":
             if take() != "(":
                 raise Malformed("sizeof(")
@@ -83,7 +85,7 @@ def evaluate(s, ctx, consts, sizeof):
             return number(t)
         if t[0].isalpha() or t[0] == "_":
             if t in ctx:
-                return int(ctx[t])
+                return int(ctx[t]) if apply_op is None else ctx[t]
             if t in consts:
                 return int(consts[t])
             raise Malformed(f"unknown identifier {t}")
@@ -97,7 +99,7 @@ def evaluate(s, ctx, consts, sizeof):
                 return left
             take()
             right = expr(PREC[op] + 1)  # left associative
-            left = apply(op, left, right)
+            left = apply(op, left, right) if apply_op is None else apply_op(op, left, right)
 
     def apply(op, a, b):
         if op in ("/", "%"):
